@@ -407,6 +407,10 @@ def shard_limits(ctx, k, payload):
         if recipe == 'oid':
             # the count is consulted only on the path that does not go through Schedule B
             read = any(key == probe and o == 'ok' and nm == '1040.2b' for nm, reads, _ in ro.trace.attempts for kind, key, o, _v in reads if kind == 'i')
+        if recipe == 'payers' and not any(f_.split(':')[0] == '1040_sb' for f_ in ro.forms):
+            # fifteen payers whose interest stays under the Schedule B threshold need no Schedule B: its 14 rows are no limit then
+            ctx.count('limits:payers_schedule_b_not_required')
+            return
         if not read:
             ctx.count('limits:amount_not_consulted:' + recipe)
             return
@@ -500,6 +504,8 @@ def replay(ctx, case):
     sc = {'year': year, 'forms': case['forms'], 'inputs': case['inputs']}
     r = scenario.resolve(sc, want_solution=False)
     if case.get('mode') == 'limit':
+        if case['gate'] == 'limit:payers' and not any(f_.split(':')[0] == '1040_sb' for f_ in r.forms):
+            return
         if r.exc is None and r.verdict:
             ctx.violation(f'{year}:solved-beyond-limit:{case["gate"].split(":")[1]}', 'still solves beyond the limit', case)
         return
